@@ -46,6 +46,8 @@ def spec(draw, n, depth, fn, herm_only):
         kinds += ["gen", "gen", "T", "H"]
     if fn == "exp" and n >= 2:
         kinds += ["spsd"]
+    if fn in ("exp", "exp_nosing", "apply_unary") and depth > 0:
+        kinds += ["neg"]  # a negative multiple (spectrum on the negative axis, where these functions are defined)
     if depth > 0:
         kinds += ["bd", "bd"]
         if any(1 < d < n for d in range(2, n) if n % d == 0):
@@ -57,13 +59,15 @@ def spec(draw, n, depth, fn, herm_only):
     seed = draw(st.integers(0, 10**6))
     if k in ("pd", "spsd"):
         return {"k": k, "n": n, "seed": seed, "cplx": draw(st.booleans()), "declare": draw(st.sampled_from(["PSD", "SelfAdjoint", "none"])),
-                "repeated": draw(st.integers(1, 3)) == 1}
+                "repeated": draw(st.integers(1, 3)) == 1, "single": draw(st.integers(1, 5)) == 1}
     if k == "gen":
-        return {"k": k, "n": n, "seed": seed, "cplx": draw(st.booleans())}
+        return {"k": k, "n": n, "seed": seed, "cplx": draw(st.booleans()), "single": draw(st.integers(1, 6)) == 1}
     if k in ("diag", "eye", "smul"):
         return {"k": k, "n": n, "seed": seed}
     if k in ("T", "H"):
         return {"k": k, "ch": [draw(spec(n, depth - 1, fn, herm_only))]}
+    if k == "neg":
+        return {"k": "neg", "c": draw(st.sampled_from([-1.0, -1.5, -0.5])), "ch": [draw(spec(n, 0, fn, True))]}
     if k == "bd":
         parts = []
         rem = n
@@ -97,6 +101,8 @@ def cases(draw, tier):
         case["a"] = draw(st.sampled_from(EXPS))
     if fn == "apply_unary":
         case["f"] = draw(st.sampled_from(UNARY))
+        if case["f"] == "inv1" and "neg" in kinds_of(case["tree"]):
+            case["f"] = "sq1"  # 1 / (1 + x) has its pole on the negative axis
     return case
 
 
@@ -118,7 +124,12 @@ def build(s):
         if k == "spsd":
             lam[: max(1, n // 3)] = 0.0
         M, Q = KR.hermitian(lam, s["seed"], s["cplx"])
-        A = ops.Dense(M)
+        if s.get("single"):  # float32 / complex64 payload (the reference keeps its rounded values in double precision)
+            Ms = M.astype(np.complex64 if s["cplx"] else np.float32)
+            Ms = ((Ms + Ms.conj().T) / 2).astype(Ms.dtype)
+            A, M = ops.Dense(Ms), Ms.astype(np.complex128 if s["cplx"] else np.float64)
+        else:
+            A = ops.Dense(M)
         if s["declare"] != "none":
             A = getattr(cola, s["declare"])(A)
         return A, M, 1.0
@@ -143,6 +154,9 @@ def build(s):
             E = E / max(np.linalg.norm(E, 2), 1e-12) * 0.6
             X = np.eye(n) + E
             M = X @ D @ np.linalg.inv(X)
+        if s.get("single"):
+            Ms = M.astype(np.complex64 if np.iscomplexobj(M) else np.float32)
+            return ops.Dense(Ms), Ms.astype(np.complex128 if np.iscomplexobj(M) else np.float64), float(np.linalg.cond(X))
         return ops.Dense(M), M, float(np.linalg.cond(X))
     if k == "diag":
         rng = np.random.default_rng(s["seed"])
@@ -154,6 +168,9 @@ def build(s):
         c = 0.5 + (s["seed"] % 7) / 2.0
         return ops.ScalarMul(c, (s["n"], s["n"]), dtype=np.float64), c * np.eye(s["n"]), 1.0
     parts = [build(c) for c in s["ch"]]
+    if k == "neg":
+        A, M, c = parts[0]
+        return s["c"] * A, s["c"] * M, c
     if k == "T":
         A, M, c = parts[0]
         return ops.Transpose(A), M.T, c
@@ -170,6 +187,10 @@ def build(s):
     if k == "kronsum":
         return ops.KronSum(A1, A2), np.kron(M1, np.eye(M2.shape[0])) + np.kron(np.eye(M1.shape[0]), M2), c1 * c2
     raise ValueError(k)
+
+
+def has_single(s):
+    return bool(s.get("single")) or any(has_single(c) for c in s.get("ch", []))
 
 
 def kinds_of(s):
@@ -288,7 +309,10 @@ def check(case, out):
         out.notes.append("reference_failed:" + type(e).__name__)
         return
     yref = Fref @ v
-    tol = 1e-7 * max(condx, 1.0) * max(np.linalg.norm(Fref, 2), 1e-300) * np.linalg.norm(v) * (100 if case["alg"] in ("Lanczos", "Arnoldi") else 1)
+    single = has_single(tree)
+    if single:
+        out.label("single_precision")
+    tol = (2e-3 if single else 1e-7) * max(condx, 1.0) * max(np.linalg.norm(Fref, 2), 1e-300) * np.linalg.norm(v) * (100 if case["alg"] in ("Lanczos", "Arnoldi") and not single else 1)
     if y.shape != yref.shape:
         out.fail("value", site, "shape", f"{y.shape} vs {yref.shape}")
         return
@@ -306,5 +330,5 @@ def check(case, out):
             out.fail("sqrt_twice", site, oracle.exc_man(e), e)
             return
         e2 = np.linalg.norm(z - M @ v)
-        if not np.isfinite(e2) or e2 > 1e-6 * max(condx, 1.0) * np.linalg.norm(M, 2) * np.linalg.norm(v) * (100 if case["alg"] in ("Lanczos", "Arnoldi") else 1):
+        if not np.isfinite(e2) or e2 > (1e-2 if single else 1e-6) * max(condx, 1.0) * np.linalg.norm(M, 2) * np.linalg.norm(v) * (100 if case["alg"] in ("Lanczos", "Arnoldi") else 1):
             out.fail("sqrt_twice", site, "value", f"|sqrt(A) sqrt(A) v - A v| = {e2:.3e}")
